@@ -656,6 +656,12 @@ def _handler(body):
             wops.append(".confirmIfTrue")
         elif isinstance(st, ast.With) and len(st.body) == 1 and isinstance(st.body[0], ast.Try) \
                 and len(st.body[0].body) == 1 and M(st.body[0].body[0], "self._sink.write($item)"):
+            # an error of the sink is reported and the loop goes on: no handler may leave the loop
+            for h in st.body[0].handlers:
+                if any(isinstance(n, (ast.Break, ast.Return, ast.Raise)) for x in h.body for n in ast.walk(x)):
+                    raise Unsupported("_queued_writer: an error of sink.write ends the worker loop")
+            if st.body[0].finalbody or st.body[0].orelse:
+                raise Unsupported("_queued_writer: unexpected else/finally around sink.write")
             wops.append(".write")
         elif M(st, "self._sink.write($item)"):
             wops.append(".write")
